@@ -6,6 +6,7 @@ package main
 
 import (
 	"fmt"
+	"regexp"
 	"runtime"
 	"strings"
 	"time"
@@ -32,7 +33,51 @@ func mouse(btn vaxis.MouseButton, col, row int, ty string, mods string) string {
 	return fmt.Sprintf("mouse:%d@%d,%d:%s:%s", btn, col, row, ty, mods)
 }
 
+// paramVariants derives, from every well-formed CSI report of the alphabet, the reports with one
+// parameter less, with only the first parameter, and with one parameter more: a handler that indexes
+// its parameters after an off-by-one length check meets exactly the count it mishandles.
+func paramVariants(base []item) []item {
+	re := regexp.MustCompile(`^\x1b\[([<?>=]?)([0-9:;]+)([ -/]*[@-~])$`)
+	seen := map[string]bool{}
+	for _, it := range base {
+		seen[it.bytes] = true
+	}
+	var out []item
+	for _, it := range base {
+		if it.garbage || len(it.want) > 0 {
+			continue // keys and paste markers: one more parameter is a modifier, not a malformation
+		}
+		m := re.FindStringSubmatch(it.bytes)
+		if m == nil {
+			continue
+		}
+		ps := strings.Split(m[2], ";")
+		var vars [][]string
+		if len(ps) > 1 {
+			vars = append(vars, ps[:len(ps)-1], ps[:1])
+		}
+		if len(ps) > 2 {
+			vars = append(vars, ps[:len(ps)-2])
+		}
+		vars = append(vars, append(append([]string{}, ps...), "7"))
+		for _, v := range vars {
+			b := "\x1b[" + m[1] + strings.Join(v, ";") + m[3]
+			if seen[b] {
+				continue
+			}
+			seen[b] = true
+			out = append(out, item{name: fmt.Sprintf("%s with %d parameters", it.name, len(v)), bytes: b, garbage: true})
+		}
+	}
+	return out
+}
+
 func items() []item {
+	base := baseItems()
+	return append(base, paramVariants(base)...)
+}
+
+func baseItems() []item {
 	k := func(name, b, want string) item { return item{name: name, bytes: b, want: []string{"key:" + want}} }
 	reply := func(name, b string, danger bool) item { return item{name: name, bytes: b, danger: danger} }
 	junk := func(name, b string) item { return item{name: name, bytes: b, garbage: true, danger: true} }
